@@ -106,7 +106,7 @@ def imm_for(rng, shape, tb):
     if shape == "SLabels":
         return " ".join(f"l{rng.randrange(0, 9)}" for _ in range(rng.randrange(1, 5)))
     if shape == "SOptInt":
-        return rng.choice(["", str(small_int(rng))])
+        return rng.choice(["", "0", rng.choice(["00", "0x0", "0"]), str(small_int(rng)), rng.choice(int_spellings(rng, small_int(rng)))])
     if shape == "SGtxn":
         f = f"{rng.choice(arr)} {small_int(rng)}" if rng.random() < 0.3 else rng.choice(txf)
         return f"{rng.choice(int_spellings(rng, small_int(rng)))} {f}"
